@@ -33,6 +33,10 @@ const (
 // Predict: the message `spec` starts at the beginning of `avail` available
 // bytes (its own bytes first, then whatever the peer sent after it).
 func Predict(spec *gen.MsgSpec, flags uint, noMore bool, avail int) Pred {
+	if len(spec.Hdrs) == 0 {
+		// C06 quantifies over well-formed header blocks; a message without any header line is not one
+		return Pred{Ret: -1, BodyLen: -1, Why: "model: no header line, no prediction"}
+	}
 	h := spec.HdrEnd()
 	need := h
 	if spec.Blank == "\r" && !(noMore && avail == h) {
@@ -111,6 +115,12 @@ func Predict(spec *gen.MsgSpec, flags uint, noMore bool, avail int) Pred {
 func C06Call(spec *gen.MsgSpec, cfg sut.Cfg, m *sipsp.PSIPMsg, buf []byte, start, ret int, err sipsp.ErrorHdr, eofCall bool) string {
 	noMore := eofCall && cfg.EOFFlag
 	avail := len(buf) - start
+	// the object's own account of the verdict ("Parsed returns true if the message is fully parsed
+	// and no more input is needed"): a message is reported complete exactly when the call said so -
+	// in particular a missing Content-Length "reported as such" is not a parsed message
+	if m.Parsed() != (err == sipsp.ErrHdrOk) {
+		return fmt.Sprintf("flags=%d noMore=%v: the parser returned (%d,%d %q) but Parsed() = %v", cfg.Flags, noMore, ret, err, err, m.Parsed())
+	}
 	p := Predict(spec, cfg.Flags, noMore, avail)
 	if len(p.Errs) == 0 {
 		return ""
